@@ -28,6 +28,25 @@ def run_driver(chk, test, result_file, env, timeout=1500, race=True):
                 res.setdefault("violations", None)
                 res["violations"] = (res["violations"] or []) + [dict(sig="data-race", desc="race detector report in the client:\n" + block[:1500])]
                 return wd, res, t
+            # the harness only reads what the client delivered to it over a result channel: a client write that races with
+            # rcResultTag (the function that looks at a delivered result) means the client still writes to memory it gave away
+            for blk in out.split("WARNING: DATA RACE")[1:]:
+                secs = blk.split("\n\n")[:2]
+                if len(secs) < 2:
+                    continue
+                def kind(sec):
+                    h = sec.strip().splitlines()[0].lower() if sec.strip() else ""
+                    return "write" if "write at" in h else ("read" if "read at" in h else "")
+                def frames(sec):
+                    return re.findall(r"\n\s+(/\S+\.go):\d+", sec)
+                for w, r_ in ((secs[0], secs[1]), (secs[1], secs[0])):
+                    fw = [f for f in frames(w) if f.startswith(vlib.REPO + "/")]
+                    if kind(w) == "write" and kind(r_) == "read" and fw and "zz_verif" not in fw[0] and "verifsim" not in fw[0] \
+                            and not [f for f in fw if "zz_verif" in f] and "rcResultTag" in r_:
+                        res["violations"] = (res.get("violations") or []) + [dict(sig="delivered-result-overwritten",
+                            desc="the client writes to memory of a result it has already delivered to a caller (race detector):\n"
+                                 + ("WARNING: DATA RACE" + blk)[:1800])]
+                        return wd, res, t
         raise vlib.MachineryError("%s: test binary failed (rc=%d):\n%s" % (test, t["rc"], out[-2500:]))
     return wd, res, t
 
